@@ -115,6 +115,14 @@ pub fn deliver_all(base: usize, datagrams: &[Vec<u8>], t: &mut Tally) -> Option<
             return Some(v);
         }
     }
+    // the node must survive what comes next: its own gossip tick and one more (harmless) datagram
+    if let Err(p) = guarded(|| node.cc.verif_update_self_heartbeat()) {
+        return Some((format!("the next gossip tick panicked: {p}"), format!("panic:{}", short_loc(&p))));
+    }
+    let harmless = real::build_real(&Msg::BadCluster).unwrap();
+    if let Err(p) = guarded(|| node.cc.verif_process_message(harmless)) {
+        return Some((format!("the next (harmless) datagram panicked the node: {p}"), format!("panic:{}", short_loc(&p))));
+    }
     let before = observe(&node);
     if let Err(p) = guarded(|| node.cc.verif_update_nodes_liveness()) {
         return Some((format!("liveness evaluation panicked afterwards: {p}"), format!("panic:{}", short_loc(&p))));
@@ -290,6 +298,83 @@ pub fn two_datagrams(bases: &[usize], deadline: Instant) -> (Tally, Vec<Viol>, b
     (tally, viols, capped.load(std::sync::atomic::Ordering::Relaxed))
 }
 
+/// Hostile digests: SYN (right and wrong cluster id) and SYN-ACK datagrams whose digest lists the
+/// receiver itself / a known / an unknown member with extreme heartbeats and frontiers; all
+/// sequences of up to `max_len` such datagrams.
+pub fn digest_grammar(max_len: usize, deadline: Instant) -> (Tally, Vec<Viol>, bool) {
+    let mut entries: Vec<DigestEntry> = vec![];
+    for id in [receiver_id(), known_id(), unknown_id()] {
+        for hb in [0u64, 1, u64::MAX - 1, u64::MAX] {
+            for (gc, mv) in [(0u64, 0u64), (u64::MAX, 0), (0, u64::MAX), (3, 1)] {
+                entries.push(DigestEntry { id: id.clone(), heartbeat: hb, gc, mv });
+            }
+        }
+    }
+    // datagrams: one or two digest entries, three framings
+    let mut datagrams: Vec<(String, Vec<u8>)> = vec![];
+    let show = |e: &DigestEntry| format!("{}:hb={},gc={},mv={}", e.id.node_id, e.heartbeat, e.gc, e.mv);
+    for (i, e) in entries.iter().enumerate() {
+        let mut digests = vec![vec![e.clone()]];
+        // pair with an entry of another member (first of each member's block)
+        for j in [0usize, 16, 32] {
+            if entries[j].id != e.id {
+                digests.push(vec![e.clone(), entries[(j + i) % 16 + j].clone()]);
+            }
+        }
+        for d in digests {
+            let name = d.iter().map(show).collect::<Vec<_>>().join(" + ");
+            datagrams.push((format!("SYN[{name}]"), codec::encode(&Msg::Syn { digest: d.clone(), cluster_id: "c".into() })));
+            datagrams.push((format!("SYN-ACK[{name}]"), codec::encode(&Msg::SynAck { digest: d.clone(), ops: vec![] })));
+            if i % 4 == 0 {
+                datagrams.push((format!("foreign SYN[{name}]"), codec::encode(&Msg::Syn { digest: d, cluster_id: "other".into() })));
+            }
+        }
+    }
+    let capped = std::sync::atomic::AtomicBool::new(false);
+    let n = datagrams.len();
+    let idx: Vec<usize> = (0..n).collect();
+    let results: Vec<(Tally, Vec<Viol>)> = idx
+        .par_iter()
+        .map(|i| {
+            let mut t = Tally::default();
+            let mut v: Vec<Viol> = vec![];
+            for base in 0..BASE_STATES {
+                if Instant::now() > deadline {
+                    capped.store(true, std::sync::atomic::Ordering::Relaxed);
+                    break;
+                }
+                let mut seqs: Vec<Vec<usize>> = vec![vec![*i]];
+                if max_len >= 2 {
+                    // second datagram: every datagram with a single-entry digest (every 1st of each group)
+                    for j in 0..n {
+                        if !datagrams[j].0.contains(" + ") {
+                            seqs.push(vec![*i, j]);
+                        }
+                    }
+                }
+                for s in seqs {
+                    t.inc("sequences");
+                    let bytes: Vec<Vec<u8>> = s.iter().map(|k| datagrams[*k].1.clone()).collect();
+                    if let Some((what, sig)) = deliver_all(base, &bytes, &mut t) {
+                        if v.len() < 3 {
+                            v.push(Viol { what: format!("base state {base}, datagrams {:?}: {what}", s.iter().map(|k| datagrams[*k].0.clone()).collect::<Vec<_>>()), sig, replay: json!({"engine":"hostile","family":"digests","base":base,"datagrams":s.iter().map(|k| datagrams[*k].0.clone()).collect::<Vec<_>>(),"hex":bytes.iter().map(|b| hex(b)).collect::<Vec<_>>()}) });
+                        }
+                    }
+                }
+            }
+            (t, v)
+        })
+        .collect();
+    let mut tally = Tally::default();
+    let mut viols = vec![];
+    for (t, v) in results {
+        tally.merge(&t);
+        viols.extend(v);
+    }
+    tally.add("digest_datagrams", n as u64);
+    (tally, viols, capped.load(std::sync::atomic::Ordering::Relaxed))
+}
+
 // ------------------------------------------------------------------ (b) byte-level mutations of valid messages
 
 fn hex(b: &[u8]) -> String {
@@ -454,7 +539,7 @@ pub fn run(tier: Tier, started: Instant) -> Vec<Part> {
 
     let max_len = tier.pick(3, 4);
     let mut g = Part::new(&format!("hostile/op-grammar(len<={max_len})"));
-    g.rule = format!("every op sequence of length <= {max_len} over the hostile alphabet (27 member headers: known / unknown / the receiver itself x watermark {{0,3,2^64-1}} x start {{0,1,3}}; 30 key-values: key {{a, é}} x version {{0,1,2,5,2^64-1}} x status; SetMaxVersion {{0,1,5,2^64-1}}) in ANY order, framed as ACK (and as SYN-ACK on a quarter of the cases), delivered to a real node in each of 6 base states (fresh; member known and empty; (0,2) with entries; mid-reset (3,1); (3,5) with a tombstone; member live in the failure detector and receiver owning a key); oracle: decoding does not panic, processing does not panic, frontiers do not decrease, live/dead disjoint, the receiver stays live, a liveness evaluation / GC pass / SYN creation afterwards do not panic; non-trivial = datagrams accepted by the decoder");
+    g.rule = format!("every op sequence of length <= {max_len} over the hostile alphabet (27 member headers: known / unknown / the receiver itself x watermark {{0,3,2^64-1}} x start {{0,1,3}}; 30 key-values: key {{a, é}} x version {{0,1,2,5,2^64-1}} x status; SetMaxVersion {{0,1,5,2^64-1}}) in ANY order, framed as ACK (and as SYN-ACK on a quarter of the cases), delivered to a real node in each of 6 base states (fresh; member known and empty; (0,2) with entries; mid-reset (3,1); (3,5) with a tombstone; member live in the failure detector and receiver owning a key); oracle: decoding does not panic, processing does not panic, frontiers do not decrease, live/dead disjoint, the receiver stays live, the node's next gossip tick, one more harmless datagram, a liveness evaluation, a GC pass and a SYN creation afterwards do not panic; non-trivial = datagrams accepted by the decoder");
     let (t, v, capped) = grammar(max_len, secs(tier.pick(35, 2400)));
     g.tally.merge(&t);
     push(&mut g, v);
@@ -488,6 +573,22 @@ pub fn run(tier: Tier, started: Instant) -> Vec<Part> {
     }
     d.sample(json!({"base_state": 3, "datagrams": [["Node(known,gc=3,from=0)", "Kv(a,v5,s1)"], ["Node(known,gc=0,from=3)", "SetMax(1)"]]}));
     parts.push(d);
+
+    let mut dg = Part::new("hostile/digest-grammar");
+    dg.rule = "SYN (own and foreign cluster id) and SYN-ACK datagrams whose digest lists the receiver itself, a known or an unknown member with heartbeat {0, 1, 2^64-2, 2^64-1} and frontiers {(0,0), (2^64-1,0), (0,2^64-1), (3,1)}, alone or next to an entry of another member; every single datagram and every ordered pair (second one with a single-entry digest), delivered to each of the 6 base states; same oracle, which includes the node's next gossip tick and one more harmless datagram".into();
+    let (t, v, capped) = digest_grammar(2, secs(tier.pick(48, 3200)));
+    dg.tally.merge(&t);
+    push(&mut dg, v);
+    dg.states = dg.tally.get("sequences");
+    dg.transitions = dg.tally.get("datagrams");
+    dg.executions = dg.tally.get("datagrams");
+    dg.distinct_nontrivial = dg.tally.get("decoded");
+    dg.exhaustive = !capped;
+    if capped {
+        dg.caps_hit.push("wall cap".into());
+    }
+    dg.sample(json!({"base_state": 5, "datagrams": ["SYN[recv:hb=18446744073709551615,gc=0,mv=0]", "SYN-ACK[known:hb=1,gc=3,mv=1]"]}));
+    parts.push(dg);
 
     let mut m = Part::new("hostile/byte-mutations");
     m.rule = "for each message of a corpus of valid datagrams (BadCluster, SYNs, ACK and SYN-ACK with header-only / key-values of every status / reset / SetMaxVersion / three members / spoofed receiver id, each under three block layouts, compressible and high-entropy bodies, several blocks, two real emissions): every truncation length, every single-byte replacement by {0x00, 0xFF, b^1, b^0x80} at every offset, every block-length field -1/+1/0/65535, trailing garbage; each mutant delivered to two base states; same oracle; non-trivial = mutants accepted by the decoder".into();
